@@ -69,7 +69,7 @@ def havoc_like(ip, old, ty=None, name="v"):
             if old.t.sort() == Val and ty is None:
                 ty = "val"
         elif old is None:
-            raise Unsupported(f"loop variable {name} is None before the loop: declare its type in the loop contract")
+            ty = "val"
         elif isinstance(old, PList):
             if old.ref is None:
                 c.task.learn_promote(old.serial)
@@ -118,6 +118,9 @@ def iter_kind(ip, it):
                 return ("conc", list(d.d.values()))
             return ("conc", [(k, v) for k, v in d.d.items()])
         return ("dict", d.t, it.what, prims.elt_ty(d))
+    from .strings import SplitV
+    if isinstance(it, SplitV):
+        return ("list", it.as_list(ip), "str")
     if isinstance(it, RangeV):
         if all(isinstance(x, int) for x in (it.start, it.stop, it.step)):
             return ("conc", list(range(it.start, it.stop, it.step)))
@@ -254,7 +257,7 @@ def while_loop(ip, st):
     fr = ip.frames[-1]
     key = (fr.qual, fr.srcinfo.loop_ord[id(st)])
     key, lc = ip.w.loop_contract(key, ip)
-    if lc is None:
+    if lc is None or (lc is ip.w.default_loop and not getattr(ip.w, "cut_all_whiles", False)):
         n = 0
         while ip.truth(ip.ev(st.test), "while"):
             n += 1
